@@ -34,6 +34,7 @@ type caseDesc struct {
 	Carrier string `json:"carrier,omitempty"`
 	Cert    string `json:"server_cert,omitempty"` // none, good, untrusted, wronghost, expired
 	NoCA    bool   `json:"client_without_ca,omitempty"`
+	UpSch   string `json:"upstream_url_scheme,omitempty"` // websocket carriers: the URL is written ws:// / wss:// instead of http:// / https://
 	// all
 	Require  bool `json:"client_requires_security"`
 	Insecure bool `json:"client_insecure_flag"`
@@ -49,7 +50,7 @@ func (c *caseDesc) key() string {
 	if c.Script != nil {
 		s = c.Script.name()
 	}
-	return fmt.Sprintf("%s/%s/%s/%v/%v/%v/%s/%s/%s", c.Monitor, c.Carrier, c.Cert, c.NoCA, c.Require, c.Insecure, c.Transport, s, c.Peer)
+	return fmt.Sprintf("%s/%s/%s/%v/%v/%v/%s/%s/%s/%s", c.Monitor, c.Carrier, c.Cert, c.NoCA, c.Require, c.Insecure, c.Transport, s, c.Peer, c.UpSch)
 }
 
 func certOf(name string) *e2e.CertPair {
@@ -308,7 +309,7 @@ func runA(rec *vcommon.Rec, c *caseDesc) {
 	n := reps(c.Carrier, rec.Thorough())
 	payC, payT := mC.payload(n), mT.payload(n)
 
-	opt := e2e.Options{Carrier: c.Carrier, WithRelay: !strings.HasPrefix(c.Carrier, "stdio"), ClientSecure: c.Require, ClientInsecure: c.Insecure,
+	opt := e2e.Options{Carrier: c.Carrier, UpScheme: c.UpSch, WithRelay: !strings.HasPrefix(c.Carrier, "stdio"), ClientSecure: c.Require, ClientInsecure: c.Insecure,
 		StrictVerify: true, Tag: "a"}
 	if c.Cert == "none" {
 		opt.NoServerCert = true
@@ -321,7 +322,7 @@ func runA(rec *vcommon.Rec, c *caseDesc) {
 		opt.ClientCA = pk.CA1
 	}
 	offered := c.Cert != "none" && !alreadyEncrypted(c.Carrier)
-	cell := fmt.Sprintf("%s|cert=%s|require=%v|insecure=%v%s", c.Carrier, c.Cert, c.Require, c.Insecure, yn(c.NoCA, "|client-without-ca", ""))
+	cell := fmt.Sprintf("%s|cert=%s|require=%v|insecure=%v%s", c.Carrier, c.Cert, c.Require, c.Insecure, yn(c.NoCA, "|client-without-ca", "")+yn(c.UpSch != "", "|url="+c.UpSch+"://", ""))
 
 	verifhook.Events()
 	verifhook.Record(true)
@@ -582,6 +583,14 @@ func aCases(rec *vcommon.Rec) []*caseDesc {
 		if rec.Thorough() || ca == "tcp" || ca == "ws" {
 			add(ca, "good", true, false, false) // the client has no CA at all
 			add(ca, "good", true, true, false)
+		}
+		// the same websocket endpoints with the upstream URL written ws:// / wss://
+		if ca == "ws" || ca == "wss" {
+			for _, ce := range certs {
+				for _, req := range []bool{false, true} {
+					out = append(out, &caseDesc{Monitor: "A", Seed: rec.Seed(), Carrier: ca, Cert: ce, Require: req, UpSch: ca})
+				}
+			}
 		}
 	}
 	return out
